@@ -308,7 +308,9 @@ impl BDF {
             let mut x_new = x + h_signed;
             if direction * (x_new - xend) > 0.0 {
                 let step_to_end = (xend - x).abs();
-                if step_to_end == 0.0 {
+                // Within rounding of xend (e.g. max_step dividing the interval) the interval is
+                // covered; a step of about one ulp would only trip the stagnation guard.
+                if step_to_end <= 4.0 * Float::EPSILON * x.abs().max(xend.abs()) {
                     status = Status::Success;
                     break;
                 }
